@@ -39,14 +39,14 @@ func main() {
 		// ordered by value per unit of work: the deadline cuts the tail of this list on a busy machine
 		plan = []chainops.Search{
 			{World: "small", Alpha: "staking", Depth: 2}, {World: "dust", Alpha: "staking", Depth: 2}, {World: "small", Alpha: "staking", Depth: 3},
-			{World: "longwin", Alpha: "staking", Depth: 3},
+			{World: "longwin", Alpha: "staking", Depth: 3}, {World: "minstake", Alpha: "staking", Depth: 3},
 			{World: "small", Alpha: "full", Depth: 2}, {World: "small/p1", Alpha: "staking", Depth: 2}, {World: "dust", Alpha: "staking", Depth: 3},
 			{World: "small", Alpha: "staking", Depth: 4},
 		}
 	} else {
 		plan = []chainops.Search{
 			{World: "small", Alpha: "staking", Depth: 4}, {World: "dust", Alpha: "staking", Depth: 4}, {World: "small", Alpha: "full", Depth: 3},
-			{World: "small/p1", Alpha: "staking", Depth: 4}, {World: "longwin", Alpha: "staking", Depth: 4}, {World: "small", Alpha: "staking", Depth: 5}, // the near-2^64 genesis is C04's quantifier, not C12's: minting beyond 2^64 cannot succeed by arithmetic
+			{World: "small/p1", Alpha: "staking", Depth: 4}, {World: "longwin", Alpha: "staking", Depth: 4}, {World: "minstake", Alpha: "staking", Depth: 4}, {World: "small", Alpha: "staking", Depth: 5}, // the near-2^64 genesis is C04's quantifier, not C12's: minting beyond 2^64 cannot succeed by arithmetic
 		}
 	}
 	chainops.RunPlan(r, "C12", plan)
